@@ -658,6 +658,8 @@ func (p *Prog) axiomText(ufs map[string]bool) string {
 		if lt != "" {
 			fmt.Fprintf(&sb, "(assert (forall ((a %s) (n Int) (i Int) (j Int)) (! (=> (and (<= 0 i) (< i j) (< j n)) (not "+lt+")) :pattern ((select (%[2]s a n) i) (select (%[2]s a n) j)))))\n", as, fn)
 		}
+		// ... no input slot is used twice (so it is a permutation) ...
+		fmt.Fprintf(&sb, "(assert (forall ((a %s) (n Int) (i Int) (j Int)) (! (=> (and (<= 0 i) (< i j) (< j n)) (not (= (%s a n i) (%s a n j)))) :pattern ((%s a n i) (%s a n j)))))\n", as, pf, pf, pf, pf)
 	}
 	if ufs["atoiVal"] {
 		sb.WriteString("(assert (forall ((s Str)) (! (and (<= (- 9223372036854775808) (atoiVal s)) (<= (atoiVal s) 9223372036854775807)) :pattern ((atoiVal s)))))\n")
@@ -677,6 +679,9 @@ func (p *Prog) axiomText(ufs map[string]bool) string {
 		}
 		as := "(Array Int " + es.S + ")"
 		fmt.Fprintf(&sb, "(assert (forall ((a %s) (n Int) (j Int)) (! (=> (and (<= 0 j) (< j n)) (and (<= 0 (%s a n j)) (< (%s a n j) n) (= (select (%s a n) j) (select a (%s a n j))))) :pattern ((select (%s a n) j)))))\n", as, pf, pf, fn, pf, fn)
+		if _, dup := p.sortAxioms[id]; !dup || !ufs["sorted_"+id] {
+			fmt.Fprintf(&sb, "(assert (forall ((a %s) (n Int) (i Int) (j Int)) (! (=> (and (<= 0 i) (< i j) (< j n)) (not (= (%s a n i) (%s a n j)))) :pattern ((%s a n i) (%s a n j)))))\n", as, pf, pf, pf, pf)
+		}
 	}
 	for _, s := range p.w.slices {
 		sh := "shift_" + sortIdent(s.Elem)
@@ -718,10 +723,17 @@ func runPortfolio(query string, timeout time.Duration, dir string, tag string, w
 // the configurations that win most often; used for the first (sliced) attempt
 var fastSolvers = []solverSpec{solvers[0], solvers[1], solvers[3], solvers[4], solvers[5]}
 
+// the scout runs the unweakened query next to the staged attempts
+var scoutSolvers = []solverSpec{solvers[0], solvers[1], solvers[3]}
+
 func runPortfolioWith(solvers []solverSpec, query string, timeout time.Duration, dir string, tag string, waitAll bool) solveResult {
+	return runPortfolioCtx(context.Background(), solvers, query, timeout, dir, tag, waitAll)
+}
+
+func runPortfolioCtx(parent context.Context, solvers []solverSpec, query string, timeout time.Duration, dir string, tag string, waitAll bool) solveResult {
 	f := filepath.Join(dir, tag+".smt2")
 	os.WriteFile(f, []byte(query), 0o644)
-	ctx, cancel := context.WithTimeout(context.Background(), timeout)
+	ctx, cancel := context.WithTimeout(parent, timeout)
 	defer cancel()
 	type one struct {
 		name, verdict, out string
@@ -842,8 +854,37 @@ func (p *Prog) dischargeAll(obls []*Obligation, timeout time.Duration, dir strin
 			defer wg.Done()
 			defer func() { <-sem }()
 			tag := fmt.Sprintf("q%04d", i)
+			// a scout: the full query on two solvers, raced against the staged weakenings below, so that an
+			// obligation that needs every hypothesis does not wait for the earlier stages to time out
+			stageCtx, stopStages := context.WithCancel(context.Background())
+			defer stopStages()
+			scout := make(chan solveResult, 1)
+			go func() {
+				r := runPortfolioCtx(stageCtx, scoutSolvers, queries[i], timeout, dir, tag+"s", false)
+				if r.verdict == "unsat" {
+					scout <- r
+					stopStages()
+				}
+				close(scout)
+			}()
+			scouted := func() bool {
+				select {
+				case r, ok := <-scout:
+					if ok && r.verdict == "unsat" {
+						mu.Lock()
+						o.Verdict, o.Solver, o.Secs, o.Output = r.verdict, r.solver+"(scout)", r.secs, r.output
+						mu.Unlock()
+						return true
+					}
+				default:
+				}
+				return false
+			}
+			runStage := func(q string, to time.Duration, t string) solveResult {
+				return runPortfolioCtx(stageCtx, fastSolvers, q, to, dir, t, false)
+			}
 			if groundqf[i] != "" {
-				rq := runPortfolioWith(fastSolvers, groundqf[i], timeout/2, dir, tag+"q", false)
+				rq := runStage(groundqf[i], timeout/2, tag+"q")
 				if rq.verdict == "unsat" {
 					mu.Lock()
 					o.Verdict, o.Solver, o.Secs, o.Output = rq.verdict, rq.solver+"(ground-qf)", rq.secs, rq.output
@@ -852,7 +893,10 @@ func (p *Prog) dischargeAll(obls []*Obligation, timeout time.Duration, dir strin
 				}
 			}
 			if ground[i] != "" {
-				rg := runPortfolioWith(fastSolvers, ground[i], timeout, dir, tag+"g", false)
+				if scouted() {
+					return
+				}
+				rg := runStage(ground[i], timeout, tag+"g")
 				if rg.verdict == "unsat" {
 					mu.Lock()
 					o.Verdict, o.Solver, o.Secs, o.Output = rg.verdict, rg.solver+"(ground)", rg.secs, rg.output
@@ -862,7 +906,10 @@ func (p *Prog) dischargeAll(obls []*Obligation, timeout time.Duration, dir strin
 			}
 			if coi[i] != "" {
 				// first only the hypotheses in the goal's cone of influence
-				rc := runPortfolioWith(fastSolvers, coi[i], timeout, dir, tag+"c", false)
+				if scouted() {
+					return
+				}
+				rc := runStage(coi[i], timeout, tag+"c")
 				if rc.verdict == "unsat" {
 					mu.Lock()
 					o.Verdict, o.Solver, o.Secs, o.Output = rc.verdict, rc.solver+"(coi)", rc.secs, rc.output
@@ -872,7 +919,10 @@ func (p *Prog) dischargeAll(obls []*Obligation, timeout time.Duration, dir strin
 			}
 			if light[i] != "" && coi[i] == "" {
 				// first without the evaluation-spec hypotheses: unsat there is unsat with them
-				rl := runPortfolioWith(fastSolvers, light[i], timeout, dir, tag+"l", false)
+				if scouted() {
+					return
+				}
+				rl := runStage(light[i], timeout, tag+"l")
 				if rl.verdict == "unsat" {
 					mu.Lock()
 					o.Verdict, o.Solver, o.Secs, o.Output = rl.verdict, rl.solver+"(sliced)", rl.secs, rl.output
@@ -880,6 +930,10 @@ func (p *Prog) dischargeAll(obls []*Obligation, timeout time.Duration, dir strin
 					return
 				}
 			}
+			if scouted() {
+				return
+			}
+			stopStages()
 			r := runPortfolio(queries[i], timeout, dir, tag, false)
 			if r.verdict == "unknown" || r.verdict == "timeout" {
 				// one retry with a longer budget
